@@ -2,6 +2,7 @@ package main
 
 import (
 	"go/token"
+	"strings"
 
 	"golang.org/x/tools/go/ssa"
 )
@@ -73,16 +74,51 @@ func reachableAvoiding(fn *ssa.Function, start ssa.Instruction, target ssa.Instr
 
 // isResultOfCall: v is the result (or the idx-th extracted result; idx<0 = any) of a call to a function named name.
 func isResultOfCall(v ssa.Value, name string, idx int) bool {
+	return isResultOfCallD(v, name, idx, 0)
+}
+
+func isResultOfCallD(v ssa.Value, name string, idx int, depth int) bool {
 	v = stripConv(v)
 	switch x := v.(type) {
 	case *ssa.Call:
-		return calleeShort(&x.Call) == name
+		if calleeShort(&x.Call) == name {
+			return true
+		}
+		return forwardsResultOf(x, 0, name, idx, depth)
 	case *ssa.Extract:
-		if c, ok := x.Tuple.(*ssa.Call); ok && calleeShort(&c.Call) == name {
-			return idx < 0 || x.Index == idx
+		if c, ok := x.Tuple.(*ssa.Call); ok {
+			if calleeShort(&c.Call) == name {
+				return idx < 0 || x.Index == idx
+			}
+			return forwardsResultOf(c, x.Index, name, idx, depth)
 		}
 	}
 	return false
+}
+
+// forwardsResultOf: call is a call of an unexported function of the repository that hands result `idx` of a call of
+// `name` back as its own result `ri` on every return that does not report an error (a lookup extracted into a part).
+func forwardsResultOf(call *ssa.Call, ri int, name string, idx int, depth int) bool {
+	h := call.Call.StaticCallee()
+	if h == nil || depth > 2 || theProg == nil || len(h.Blocks) == 0 || h.Object() == nil || h.Object().Exported() ||
+		!strings.HasPrefix(fnPkgPath(h), rootMod) {
+		return false
+	}
+	n := 0
+	for _, b := range h.Blocks {
+		r, ok := b.Instrs[len(b.Instrs)-1].(*ssa.Return)
+		if !ok || ri >= len(r.Results) {
+			continue
+		}
+		if theProg.classifyReturn(r, nil) == retError {
+			continue
+		}
+		if !isResultOfCallD(effectiveResult(r, ri), name, idx, depth+1) {
+			return false
+		}
+		n++
+	}
+	return n > 0
 }
 
 // callsNamed returns calls in fn (not closures) whose callee short name is name.
